@@ -132,8 +132,14 @@ def bounded(ctx):
             vtext, vfrag = ba.build_vector(e, ovs[chain_len], ovs[0], rng)
             if vtext is None:
                 continue
-            vec = Vec(CircularRecord(Seq(ba.rotate(vtext, rng.randrange(len(vtext)))), id="v"))
-            mods = [Mod(CircularRecord(Seq(ba.rotate(t_, rng.randrange(len(t_)))), id="m%d" % i)) for i, t_ in enumerate(texts)]
+            # every second scenario: all the inputs carry the same per-letter annotation (sequencing qualities); the
+            # replacements then come with a list, a tuple, another key, or none
+            la_ = (chain_len + len(ovs[0])) % 2 == 0
+            q_ = lambda t_: ({"phred_quality": [(7 * i_) % 41 for i_ in range(len(t_))]} if la_ else {})
+            vrot_ = ba.rotate(vtext, rng.randrange(len(vtext)))
+            vec = Vec(CircularRecord(Seq(vrot_), id="v", letter_annotations=q_(vrot_)))
+            mrot_ = [ba.rotate(t_, rng.randrange(len(t_))) for t_ in texts]
+            mods = [Mod(CircularRecord(Seq(t_), id="m%d" % i, letter_annotations=q_(t_))) for i, t_ in enumerate(mrot_)]
             got0, prod0, _ = ba.run_assembly(vec, mods)
             if got0[0] != "product":
                 viol.append(dict(name="base_%s_%d" % (e.__name__, chain_len), what="reference assembly failed: %r" % (got0,), case={}))
@@ -158,12 +164,16 @@ def bounded(ctx):
                     from bounded import common as bc_
                     tabs_ = bc_.feature_tables(len(nseq))
                     feats_ = bc_.build_features(tabs_[(j * 7 + newlen + chain_len * 3) % len(tabs_)])
+                    lan_ = [{}, {"phred_quality": list(range(len(nseq)))}, {"phred_quality": tuple(range(len(nseq)))}, {"other_track": "x" * len(nseq)}][(j + newlen) % 4]
                     if made == "fresh":
-                        repl = Mod(CircularRecord(nseq, id=rid, features=feats_))
+                        repl = Mod(CircularRecord(nseq, id=rid, features=feats_, letter_annotations=lan_))
                     else:
                         import copy as _copy
                         rec_ = (_copy.deepcopy if made == "deepcopy" else _copy.copy)(mods[j].record)
+                        rec_.letter_annotations = {}       # (Biopython refuses a new sequence while per-letter annotations are attached)
                         rec_.seq = nseq
+                        for k_, v_ in lan_.items():
+                            rec_.letter_annotations[k_] = v_
                         rec_.features = feats_
                         rec_.id = rid
                         repl = Mod(rec_)
